@@ -16,6 +16,7 @@ import io
 from dsim.kernel.core import jdump
 from dsim.models import wire as mw
 from dsim.seams.simfs import SimFS
+from dsim.seams.simhash import SimBytes
 
 NAME = "wallet"
 PROPS = ["C13", "C07"]
@@ -608,7 +609,19 @@ def _op_build(ctx, W, st):
                 break
     if tx.version != st["version"] or tx.lock_time != st["lock_time"]:
         ctx.violate("C13", "version-locktime", {})
+    _own_hash_order(tx)
     W.built[st["id"]] = (tx, rec, outs)
+
+
+def _own_hash_order(tx):
+    """validate_unspents collects the spent transaction ids in a set and walks it: give them plan-determined slots"""
+    for ti in tx.txs_in:
+        ti.previous_hash = SimBytes(ti.previous_hash)
+
+
+class _DictDb(dict):
+    def get(self, key, default=None):
+        return dict.get(self, bytes(key), default)
 
 
 def _discrepancy(W, rec):
@@ -647,7 +660,7 @@ def _op_validate(ctx, W, st):
         ctx.probe("validate_against_unfiltered_source")
     elif kind == "dict":
         from pycoin.coins.bitcoin.Tx import Tx
-        db = {h: Tx.from_bin(e[1]) for h, e in W.by_hash.items()}
+        db = _DictDb((h, Tx.from_bin(e[1])) for h, e in W.by_hash.items())
         ctx.probe("validate_against_plain_dict")
     armed = bool(W.fs.open_error or W.fs.read_fail_after is not None or W.fs.write_fail_after is not None)
     if lie or W.dirty:
